@@ -279,6 +279,157 @@ def pure_scorer(ck, fn):
         ck.ok("C14.5", short(fn) + ":pure", fn.where, f"{n} function(s) of the scorer examined: no write to self.*, no id()")
 
 
+def _dp_step(ck, fn, outer, i_name, cur_name, ordered):
+    """(a)-(d) of C14.4, decided on the *summary* of one outer iteration rather than on the statements that compute it: the
+    body of the outer loop is explored with the inner loop run 0, 1 and 2 times; on every path the value left in
+    cumulated[i] / previous[i] must be what the recurrence
+
+        best, link = 0, None
+        for k-th predecessor (ordered[:i] only):  candidate_k = cumulated[j_k] + join(ordered[j_k], current)
+                                                  if candidate_k > best: best, link = candidate_k, j_k       (strict)
+        cumulated[i] = best + current.segmentScore ;  previous[i] = link
+
+    leaves on the same sequence of test outcomes.  Whether the running best lives in cumulated[i] itself or in a local, and
+    whether the own score is added with += or in one assignment, makes no difference to that summary."""
+    from ..paths import Explorer
+    ctx = ck.ctx
+    I, CUR = V(i_name), V(cur_name)
+    own = T.mk_attr(CUR, "segmentScore")
+    w = where(fn, outer)
+    inner_loops = [x for x in ast.walk(outer) if isinstance(x, (ast.For, ast.While)) and x is not outer]
+    if not inner_loops:
+        raise AnalysisError(f"{w}: inner loop over predecessors not found")
+
+    def in_inner(node):
+        ln = getattr(node, "lineno", None)
+        return ln is not None and any(l.lineno <= ln <= (l.end_lineno or l.lineno) for l in inner_loops)
+    ex = Explorer(ctx, fn, env={i_name: I, cur_name: CUR}, unroll=(0, 1, 2))
+    paths = [pa for pa in ex.run(body=list(outer.body)) if pa.outcome == "fall"]
+    ck.add_paths(len(paths))
+    ck.floor("C14.4 paths through one DP step (0, 1, 2 predecessors)", len(paths), 7)
+    prefix = ("slice", ordered, T.NONE, I, T.NONE)
+    rng = (T.mk_call("range", [I]), T.mk_call("range", [C(0), I]))
+    seen = set()
+
+    def once(kind, ok, construct, text, found=None, required=None, node=None):
+        key = (construct, ok, found)
+        if key in seen:
+            return
+        seen.add(key)
+        ck.judge(ok, "C14.4", short(fn) + ":" + construct, where(fn, node) if node is not None else w, text, found=found, required=required)
+    for pa in paths:
+        at_i = {k[1]: v for k, v in pa.state.heap.items() if k[0] == "idx" and k[2] == I}
+        tests = [(T.as_bool(c), tv, node) for c, tv, node in pa.state.assumptions if in_inner(node)]
+        best, link = C(0), T.NONE
+        apps_seen = []
+        ok_path = True
+        CUM = None
+        for k, (c, tv, node) in enumerate(tests):
+            apps = [x for x in T.subterms(c) if x[0] == "app" and x[1].endswith("SequentialityScorer.getScore") and x not in apps_seen]
+            apps = list(dict.fromkeys(apps))
+            if len(apps) != 1:
+                raise AnalysisError(f"{where(fn, node)}: test inside the predecessor loop is not the improvement test of one "
+                                    f"candidate ({len(apps)} new join score(s)): {T.show(c)[:200]}")
+            app = apps[0]
+            apps_seen.append(app)
+            a = dict(app[3])
+            P, cur_arg = a.get("previousSegment"), a.get("currentSegment")
+            # which predecessor: the k-th element of ordered[:i], or ordered[j] for the k-th j of range(i)
+            if P is not None and P[0] == "elem" and P[1] == prefix:
+                j = C(P[2])
+                src_ok = True
+            elif P is not None and P[0] == "idx" and P[1] == ordered and P[2][0] == "elem" and P[2][1] in rng:
+                j = P[2]
+                src_ok = True
+            else:
+                src_ok = False
+                j = None
+            once("prefix", src_ok, "prefix", "predecessors are taken from ordered[:i] (a segment never precedes itself)",
+                 found=T.show(P)[:200] if P else "None", required=T.show(prefix)[:200] + "  /  ordered[j] for j in range(i)", node=node)
+            if not src_ok:
+                ok_path = False
+                break
+            once("cur", cur_arg in (CUR, T.mk_idx(ordered, I)), "candidate", "the join is scored from the predecessor to the current "
+                 "segment", found=T.show(app)[:240], required="getScore(previous=j-th, current=i-th)", node=node)
+            # the array read at [j] in the test is the score array
+            reads = [x for x in T.subterms(c) if x[0] == "idx" and x[2] == j and x[1] != ordered]
+            cum_names = list(dict.fromkeys(x[1] for x in reads))
+            if len(cum_names) != 1:
+                once("cand", False, "candidate", "candidate = cumulated[j] + joinScore(previous=j-th, current=i-th)",
+                     found=T.show(c)[:240], required="cumulated[j] + getScore(previous, current) compared with the best so far", node=node)
+                ok_path = False
+                break
+            CUM = cum_names[0]
+            cand = T.p_add(T.mk_idx(CUM, j), app)
+            if c[0] not in ("lt", "le"):
+                raise AnalysisError(f"{where(fn, node)}: improvement test is not an inequality: {T.show(c)[:200]}")
+            X = T.p_add(c[1], cand)            # c is  X - candidate < 0  (strict)  or  X - candidate <= 0  (tie accepted)
+            if X != best:
+                if k == 0:
+                    ck.violation("C14.4", short(fn) + ":init", where(fn, node), "cumulated score of a segment is not re-initialised "
+                                 "before maximising over predecessors: -inf can survive into the result", found="the first candidate "
+                                 "is compared with " + T.show(X)[:160], required="0 (cumulated[i] = 0 / a local best starting at 0)")
+                elif T.contains(X, app) or not any(T.contains(X, a0) for a0 in apps_seen[:-1]) and best != C(0):
+                    ck.violation("C14.4", short(fn) + ":candidate", where(fn, node), "candidate differs from cumulated[j] + "
+                                 "joinScore(previous=j-th, current=i-th)", found=T.show(c)[:300],
+                                 required=T.show(T.mk_gt(cand, best))[:300])
+                else:
+                    ck.violation("C14.4", short(fn) + ":strict-improvement", where(fn, node), "improvement test differs from "
+                                 "`candidate > best so far`", found=T.show(c)[:300], required=T.show(T.mk_gt(cand, best))[:300])
+                ok_path = False
+                break
+            if c[0] == "le":
+                ck.violation("C14.4", short(fn) + ":strict-improvement", where(fn, node), "predecessor recorded on a tie (non-strict "
+                             "test)", found=T.show(c)[:200], required=T.show(T.mk_gt(cand, best))[:200])
+                ok_path = False
+                break
+            once("strict", True, "strict-improvement", "a predecessor is recorded only on strict improvement (a -inf join never replaces "
+                 "the finite start value)", found=None, node=node)
+            if tv:
+                best, link = cand, j
+        if not ok_path:
+            continue
+        # what the step leaves behind
+        if CUM is None:
+            # no predecessor examined on this path: the score array is the one holding a number at [i]
+            cands = [b for b, v in at_i.items() if v != T.NONE and not (v[0] == "c" and v[1] is None)]
+            if len(cands) != 1:
+                ck.violation("C14.4", short(fn) + ":own-score", w, "a segment without predecessor does not get its own score as "
+                             "cumulated score", found="; ".join(f"{T.show(b)}[i] = {T.show(v)[:80]}" for b, v in at_i.items()) or
+                             "nothing stored at [i]", required="cumulated[i] = current.segmentScore")
+                continue
+            CUM = cands[0]
+        F = at_i.get(CUM)
+        want = T.p_add(best, own)
+        if F != want:
+            if F is not None and not tests and T.p_sub(F, own)[0] == "c" and T.p_sub(F, own) != C(0):
+                ck.violation("C14.4", short(fn) + ":init", w, "cumulated score of a segment is not re-initialised before maximising over "
+                             "predecessors: -inf can survive into the result", found=f"cumulated[i] = {T.show(F)[:120]} with no predecessor",
+                             required="0 + current.segmentScore")
+            elif F is not None and F in (best, T.p_add(best, T.p_add(own, own))) or F is None or not T.contains(F, own):
+                ck.violation("C14.4", short(fn) + ":own-score", w, "the segment's own score is added exactly once",
+                             found=f"cumulated[i] = {T.show(F)[:200] if F else 'not stored'}", required=T.show(want)[:200])
+            else:
+                ck.violation("C14.4", short(fn) + ":update", w, "on improvement both the score and the predecessor index are recorded",
+                             found=f"cumulated[i] = {T.show(F)[:200]}", required=T.show(want)[:200])
+            continue
+        once("own", True, "own-score", "the segment's own score is added exactly once", node=outer)
+        links = {b: v for b, v in at_i.items() if b != CUM}
+        if link == T.NONE:
+            ok_link = all(v == T.NONE for v in links.values())
+        else:
+            ok_link = len(links) == 1 and list(links.values())[0] == link
+        if not ok_link:
+            ck.violation("C14.4", short(fn) + ":update", w, "on improvement both the score and the predecessor index are recorded "
+                         "(and no link is recorded without improvement)",
+                         found="; ".join(f"{T.show(b)}[i] = {T.show(v)[:60]}" for b, v in links.items()) or "no link stored",
+                         required=f"previous[i] = {T.show(link)}", path=pa.describe()[:300])
+            continue
+        once("upd", True, "update", "on improvement both the score and the predecessor index are recorded", node=outer)
+        if not tests:
+            once("init", True, "init", "every segment may start a chain: with no (better) predecessor cumulated[i] is its own score", node=outer)
+
+
 def dp(ck):
     ctx = ck.ctx
     p = ctx.p
@@ -293,88 +444,7 @@ def dp(ck):
     i_name = outer.target.elts[0].id
     cur_name = outer.target.elts[1].id
     ordered = n.norm(outer.iter.args[0])
-    inner = [x for x in outer.body if isinstance(x, ast.For)]
-    if len(inner) != 1:
-        raise AnalysisError(f"{where(fn, outer)}: inner loop over predecessors not found")
-    inner = inner[0]
-    # (a) finite re-initialisation before the inner loop
-    before = outer.body[:outer.body.index(inner)]
-    init = [s for s in before if isinstance(s, ast.Assign) and isinstance(s.targets[0], ast.Subscript)
-            and ast.unparse(s.targets[0].slice) == i_name]
-    if not init:
-        ck.violation("C14.4", short(fn) + ":init", where(fn, outer), "cumulated score of a segment is not re-initialised before "
-                     "maximising over predecessors: -inf can survive into the result",
-                     found="no `cumulated[i] = <finite>` before the inner loop", required="cumulated[i] = 0")
-        cum_name = None
-    else:
-        val = n.norm(init[0].value)
-        cum_name = ast.unparse(init[0].targets[0].value)
-        ck.judge(T.is_num_const(val) and val[1] == 0, "C14.4", short(fn) + ":init", where(fn, init[0]),
-                 "every segment may start a chain: cumulated[i] is reset to 0 before looking at predecessors",
-                 found=T.show(val), required="0")
-    # (b) predecessors range over the proper prefix [:i]
-    it = n.norm(inner.iter)
-    want_prefix = ("slice", ordered, T.NONE, V(i_name), T.NONE)
-    has_prefix = any(x == want_prefix for x in T.subterms(it))
-    other_slices = [x for x in T.subterms(it) if x[0] == "slice"]
-    by_index = it in (T.mk_call("range", [V(i_name)]), T.mk_call("range", [C(0), V(i_name)]))   # for j in range(i): ordered[j]
-    if has_prefix or by_index:
-        ck.ok("C14.4", short(fn) + ":prefix", where(fn, inner), "predecessors are taken from ordered[:i] (a segment never precedes itself)")
-    else:
-        ck.violation("C14.4", short(fn) + ":prefix", where(fn, inner), "predecessors are not restricted to the proper prefix ordered[:i]",
-                     found=T.show(it)[:200], required=T.show(want_prefix)[:200])
-    j_name = inner.target.elts[0].id if isinstance(inner.target, ast.Tuple) else (
-        inner.target.id if isinstance(inner.target, ast.Name) and by_index else None)
-    prev_name = inner.target.elts[1].id if isinstance(inner.target, ast.Tuple) else None
-    prev_terms = [V(prev_name)] if prev_name else []
-    if j_name:
-        prev_terms.append(T.mk_idx(ordered, V(j_name)))
-    # (c) strict improvement
-    ifs = [s for s in inner.body if isinstance(s, ast.If)]
-    if len(ifs) != 1 or cum_name is None:
-        raise AnalysisError(f"{where(fn, inner)}: improvement test of the DP not found")
-    env = {}
-    for s in inner.body:
-        if isinstance(s, ast.Assign) and isinstance(s.targets[0], ast.Name):
-            env[s.targets[0].id] = Normalizer(ctx, fn, dict(env)).norm(s.value)
-    cond = T.as_bool(Normalizer(ctx, fn, dict(env)).norm(ifs[0].test, True))
-    cum_i = T.mk_idx(V(cum_name), V(i_name))
-    cand_terms = list(env.values())
-    cand = cand_terms[-1] if cand_terms else None
-    if cand is None:
-        raise AnalysisError(f"{where(fn, inner)}: candidate score of the DP not found")
-    want = T.mk_gt(cand, cum_i)
-    if cond == want:
-        ck.ok("C14.4", short(fn) + ":strict-improvement", where(fn, ifs[0]),
-              "a predecessor is recorded only on strict improvement (a -inf join never replaces the finite start value)", T.show(cond)[:200])
-    elif cond == T.mk_ge(cand, cum_i):
-        ck.violation("C14.4", short(fn) + ":strict-improvement", where(fn, ifs[0]), "predecessor recorded on a tie (non-strict test)",
-                     found=T.show(cond)[:200], required=T.show(want)[:200])
-    else:
-        ck.violation("C14.4", short(fn) + ":strict-improvement", where(fn, ifs[0]), "improvement test differs from `candidate > cumulated[i]`",
-                     found=T.show(cond)[:300], required=T.show(want)[:300])
-    # candidate = cumulated[j] + joinScore(previous, current)
-    joins = [x for x in T.subterms(cand) if x[0] == "app" and x[1].endswith("SequentialityScorer.getScore")]
-    ok = bool(joins) and cand == T.p_add(T.mk_idx(V(cum_name), V(j_name)), joins[0]) and \
-        dict(joins[0][3]).get("currentSegment") in (V(cur_name), T.mk_idx(ordered, V(i_name))) and \
-        dict(joins[0][3]).get("previousSegment") in prev_terms
-    ck.judge(ok, "C14.4", short(fn) + ":candidate", where(fn, inner),
-             "candidate = cumulated[j] + joinScore(previous=j-th, current=i-th)", found=T.show(cand)[:240],
-             required=f"{cum_name}[{j_name}] + getScore({prev_name}, {cur_name})")
-    # updates inside the if: cumulated[i] = candidate; previous[i] = j
-    stores = {}
-    for s in ifs[0].body:
-        if isinstance(s, ast.Assign) and isinstance(s.targets[0], ast.Subscript):
-            stores[ast.unparse(s.targets[0])] = Normalizer(ctx, fn, dict(env)).norm(s.value)
-    ok = stores.get(f"{cum_name}[{i_name}]") == cand and V(j_name) in stores.values()
-    ck.judge(ok, "C14.4", short(fn) + ":update", where(fn, ifs[0]), "on improvement both the score and the predecessor index are recorded",
-             found=str({k: T.show(v)[:60] for k, v in stores.items()}))
-    # (d) own score added exactly once after the inner loop
-    after = outer.body[outer.body.index(inner) + 1:]
-    adds = [s for s in after if isinstance(s, ast.AugAssign) and isinstance(s.op, ast.Add) and ast.unparse(s.target) == f"{cum_name}[{i_name}]"]
-    ok = len(adds) == 1 and n.norm(adds[0].value) == T.mk_attr(V(cur_name), "segmentScore")
-    ck.judge(ok, "C14.4", short(fn) + ":own-score", where(fn, outer), "the segment's own score is added exactly once",
-             found="; ".join(ast.unparse(s) for s in adds) or "no addition", required=f"{cum_name}[{i_name}] += {cur_name}.segmentScore")
+    _dp_step(ck, fn, outer, i_name, cur_name, ordered)
     # (e) back-tracking until None
     from ..norm import is_new_helper
     bt_fn = fn
@@ -408,7 +478,7 @@ def dp(ck):
              "back-tracking follows the predecessor links until None (each segment at most once: links go to smaller indices)",
              found=ast.unparse(wt), required="(k := previous[k]) is not None   /   while k is not None: ...; k = previous[k]")
     # (f) empty segments pass-through with complementary predicates
-    rets = [pa for pa in explore(ck, fn, unroll=(0,)) if pa.outcome == "return"]
+    rets = [pa for pa in explore(ck, fn, unroll=(0, 1)) if pa.outcome == "return"]
     n_final = 0
     for pa in rets:
         v = pa.value
